@@ -240,6 +240,23 @@ def run_case(case: Dict[str, Any], ctx) -> None:
                           f"first call: {len(qlog.calls)} quantise calls; after another transformed module's first call: {len(qlog2.calls)} quantise calls, "
                           f"values {'equal' if same else 'differ'}", source=src, fmt=fmt_name)
             return
+    # ---- inference: the same module called under torch.no_grad() (how a simulated-format model is evaluated) computes the same
+    # forward values as with autograd recording ------------------------------------------------------------------------------
+    if not bad and not root_case and case["seed"] % 2 == 1:
+        try:
+            with torch.no_grad(), QuantLog() as qlog3, pinned_randint(shape_keyed_randint):
+                out_3 = sim(*[t.detach().clone() for t in inputs])
+            outs_3 = list(out_3) if isinstance(out_3, (tuple, list)) else [out_3]
+        except Exception as e:
+            ctx.violation("C15:transformed-module-raises-under-no_grad:" + exc_key(e), repr(e), source=src, fmt=fmt_name)
+            return
+        ctx.count("history:called-under-no_grad")
+        same = len(outs_3) == len(outs_u) and all(bits_equal(a.detach(), b.detach()) for a, b in zip(outs_3, outs_u))
+        if not same or (has_q and not lossless_pair and not qlog3.calls):
+            ctx.violation("C15:no_grad-call-of-the-transformed-module-computes-something-else",
+                          f"forward values under torch.no_grad() {'equal' if same else 'differ from'} those with autograd recording; quantise calls under no_grad: {len(qlog3.calls)}",
+                          source=src, fmt=fmt_name)
+            return
     # ---- lossless pair: bit-for-bit the untransformed module ---------------------------------------------
     if fmt_name == "lossless" and not bad:
         ins_o = [t.detach().clone().requires_grad_(True) if t.is_floating_point() else t.clone() for t in inputs]
